@@ -53,9 +53,17 @@ CURVATURES = ['0.5', '2.36']
 def step_argv(case, step, arg, db):
     if step == 'classify':
         s, j = case['s'], case['j']
-        if arg % 2:
+        if arg % 4 == 1:
             s = s * 2
+        elif arg % 4 in (2, 3):
+            # another jump threshold on the same lattice
+            units = case.get('thr_units', 4)
+            other = units // 2 if (arg % 4 == 2 and units > 1) else units + 3
+            j = (other / 8.0) * 3600.0 / case['dt']
         return ['classify', db, '-s', repr(float(s)), '-j', repr(float(j))]
+    if step in ('rise', 'recession') and arg % 4 == 3:
+        # off every generated grid: the step must fail by itself
+        return [step, db, '--reference-zeta-mm=0.37']
     if step == 'set-zeta-grid':
         return ['set-zeta-grid', db, '-d', GRIDS[arg % len(GRIDS)]]
     if step == 'set-curvature':
@@ -146,43 +154,46 @@ class Machine:
 
     def settle(self, step, arg, what):
         """After an operation on `step`: the file must equal the reference
-        of the completed steps, or of the completed steps plus this one."""
+        of the completed steps, or of the completed steps with this step
+        (newly, or - should the package ever allow re-running a step - with
+        its new arguments) carried out completely."""
         got = logical_dump(self.db)
         before = self.reference(self.completed)
         if dbdump.diff(got, before) is None:
             return 'unchanged'
-        if step not in self.completed:
-            after_steps = dict(self.completed)
-            after_steps[step] = arg
-            try:
-                after = self.reference(after_steps)
-            except Violation:
-                after = None
-            if after is not None and dbdump.diff(got, after) is None:
-                self.completed[step] = arg
+        after_steps = dict(self.completed)
+        after_steps[step] = arg
+        try:
+            after = self.reference(after_steps)
+        except Violation:
+            after = None
+        if after is not None and dbdump.diff(got, after) is None:
+            outcome = 'replaced' if step in self.completed else 'completed'
+            self.completed[step] = arg
+            if step not in self.order:
                 self.order.append(step)
-                return 'completed'
-            detail = dbdump.diff(got, before)
-        else:
-            detail = dbdump.diff(got, before)
+            return outcome
         raise Violation(
             'mixture-after-{}:{}'.format(what, step),
             'after {} of {}: file is neither the previous content nor the '
-            'complete result; vs previous: {}'.format(what, step, detail))
+            'complete result; vs previous: {}'.format(
+                what, step, dbdump.diff(got, before)))
 
 
 def apply_op(machine, op, labels):
     step, arg, kind = op['step'], op['arg'], op['kind']
     if kind == 'run':
+        was_done = step in machine.completed
         error = machine.run(step, arg)
         outcome = machine.settle(step, arg, 'run')
-        if error is None and outcome != 'completed' and (
-                step not in machine.completed):
+        if error is None and outcome == 'unchanged' and not was_done:
             raise Violation('step-succeeded-without-effect:' + step, '')
-        if error is not None and outcome == 'completed':
+        if error is not None and outcome in ('completed', 'replaced'):
             raise Violation('step-failed-but-took-effect:' + step,
                             repr(error))
         labels.add('run-ok' if error is None else 'run-refused')
+        if outcome == 'replaced':
+            labels.add('rerun-carried-out')
         return
     n, first_write, dry_error = machine.count_statements(step, arg)
     if n == 0:
